@@ -10,7 +10,8 @@ LEVEL = "model_checking"
 
 
 def m_instr(c, t):
-    return {"map": f"#[map(tg{t}(~))]", "child": f"#[child(p{t})]", "ghost": f"#[o2o(ghost_owned({{gh{t}()}}))]"}[c]
+    # every instruction carries the number of the member that wrote it (a marker the hook dump shows again)
+    return {"map": f"#[map(tg{t}(~))]", "child": f"#[child(p{t})]", "ghost": f"#[o2o(ghost_owned({{gh{t}()}}))]", "parent": f"#[parent(q{t},)]"}[c]
 
 
 def m_attrs(m):
@@ -53,6 +54,49 @@ def m_merged(dump):
         for x in mem["ghost"]:
             t = [tok[1] for tok in x["e"] if isinstance(tok, list) and tok[0] == "i" and tok[1].startswith("gh")] if x["e"] != "-" else []
             ps.append({"c": "ghost", "t": int(t[0][2:]) if t else 0})
+        for x in mem["parent"]:
+            f = x["fields"][0]["this"] if x["fields"] != "-" and x["fields"] else "q0"
+            ps.append({"c": "parent", "t": int(f[1:]) if re.fullmatch(r"q\d+", f) else 0})
+        for x in mem.get("hint", []):
+            ps.append({"c": "type_hint", "t": int(x["cp"][1:]) if re.fullmatch(r"D\d+", x["cp"]) else 0})
+        out.append(ps)
+    return out
+
+
+# ---- enum variants (variant-level repeat): the origin of a type_hint is the counterpart it is dedicated to, of a rename the name ----
+def n_instr(c, t):
+    return {"map": f"#[map(W{t})]", "type_hint": f"#[type_hint(D{t}| as ())]", "ghost": f"#[ghost({{gh{t}()}})]"}[c]
+
+
+def n_head(c):
+    return " ".join(f"#[map_owned(D{j})]" for j in range(1, len(c["ms"]) + 1))
+
+
+def n_orig(c):
+    vs = [" ".join(m_attrs(m) + [n_instr(x, j) for x in sorted(m["own"])]) + f" V{j} {{ a: V }}," for j, m in enumerate(c["ms"], 1)]
+    return f"{n_head(c)} enum S {{ {' '.join(vs)} }}"
+
+
+def n_unrolled(c):
+    vs = []
+    for j, m in enumerate(c["ms"], 1):
+        own = [n_instr(x, j) for x in sorted(m["own"])]
+        cop = [n_instr(e["c"], e["t"]) for e in sorted(c["eff"][j - 1], key=lambda e: (e["c"], e["t"])) if e["t"] != j]
+        vs.append(" ".join(own + cop) + f" V{j} {{ a: V }},")
+    return f"{n_head(c)} enum S {{ {' '.join(vs)} }}"
+
+
+def n_merged(dump):
+    out = []
+    for mem in dump["members"]:
+        ps = []
+        for x in mem["map"]:
+            ps.append({"c": "map", "t": int(x["m"][1:]) if re.fullmatch(r"W\d+", x["m"]) else 0})
+        for x in mem["ghost"]:
+            t = [tok[1] for tok in x["e"] if isinstance(tok, list) and tok[0] == "i" and tok[1].startswith("gh")] if x["e"] != "-" else []
+            ps.append({"c": "ghost", "t": int(t[0][2:]) if t else 0})
+        for x in mem["hint"]:
+            ps.append({"c": "type_hint", "t": int(x["cp"][1:]) if re.fullmatch(r"D\d+", x["cp"]) else 0})
         out.append(ps)
     return out
 
@@ -150,22 +194,23 @@ def t_merged(dump):
 def run(tier, seed):
     ctx = core.Ctx("C14", tier, seed, LEVEL)
     trace, srcs = [], {}
-    plan = ([("member", "MC_C14_mq"), ("trait", "MC_C14_tq"), ("trait", "MC_C14_tq2"), ("vfield", "MC_C14_vq")] if tier == "quick"
-            else [("member", "MC_C14_mt"), ("trait", "MC_C14_tt"), ("vfield", "MC_C14_vt")])
-    for lvl, cfg in plan:
-        r = core.tlc("MC_C14", cfg, workers=12, timeout=3000)
-        if not r.ok:
-            raise core.ToolError(f"MC_C14/{cfg}: the fold does not refine the requirement, or TLC error:\n{r.stdout[-3000:]}")
-        ctx.add_tlc(r)
-        cases = r.cases
+    import streams
+    plan = ([("member", "MC_C14_mq", 20000), ("trait", "MC_C14_tq", None), ("trait", "MC_C14_tq2", None), ("vfield", "MC_C14_vq", None), ("variant", "MC_C14_nq", 16000)] if tier == "quick"
+            else [("member", "MC_C14_mq", None), ("member", "MC_C14_mt", None), ("member", "MC_C14_mt4", None), ("trait", "MC_C14_tq", None), ("trait", "MC_C14_tq2", None),
+                  ("trait", "MC_C14_tt", None), ("trait", "MC_C14_tt2", None), ("vfield", "MC_C14_vq", None), ("vfield", "MC_C14_vt", None),
+                  ("variant", "MC_C14_nq", None), ("variant", "MC_C14_nt", None)])
+    for lvl, cfg, cap in plan:
+        # TLC checks FoldOk (the fold as implemented refines the declarative requirement) on every sequence while it enumerates them; the
+        # enumeration depends on the specification only and is cached by its content hash
+        cases = streams.tlc_cases(ctx, "MC_C14", cfg, cap, seed)
         if lvl == "trait":
             # a tail parameter (`..`, `return`, `_ =>`) swallows the rest of the stream: at most one can be WRITTEN per instruction
             cases = [c for c in cases if all(sum(1 for p in t["own"] if p != "vars") <= 1 for t in c["ts"])]
-        orig = m_orig if lvl == "member" else (lambda c: v_enum(c, False)) if lvl == "vfield" else t_orig
-        unr = m_unrolled if lvl == "member" else (lambda c: v_enum(c, True)) if lvl == "vfield" else t_unrolled
+        orig = {"member": m_orig, "variant": n_orig, "vfield": lambda c: v_enum(c, False), "trait": t_orig}[lvl]
+        unr = {"member": m_unrolled, "variant": n_unrolled, "vfield": lambda c: v_enum(c, True), "trait": t_unrolled}[lvl]
         inp = []
         for i, c in enumerate(cases):
-            wr = True if lvl in ("member", "vfield") else t_writable(c)
+            wr = True if lvl != "trait" else t_writable(c)
             inp.append({"id": i, "srcs": [orig(c), unr(c) if (wr and not c["conflict"]) else orig(c)]})
         res = core.expand(inp, "syn1", events=True)
         for i, (c, rr) in enumerate(zip(cases, res)):
@@ -173,19 +218,21 @@ def run(tier, seed):
             dump = [e for e in a.get("events", []) if e.get("ev") == "parsed"]
             merged = []
             if dump:
-                merged = m_merged(dump[0]) if lvl == "member" else v_merged(dump[0]) if lvl == "vfield" else t_merged(dump[0])
+                merged = {"member": m_merged, "variant": n_merged, "vfield": v_merged, "trait": t_merged}[lvl](dump[0])
             rid = f"{cfg}:{i}"
             srcs[rid] = inp[i]["srcs"]
-            trace.append({"id": rid, "lvl": lvl, "s": c["ms"] if lvl == "member" else c["fs"] if lvl == "vfield" else c["ts"], "v1": a["verdict"], "v2": b["verdict"],
+            trace.append({"id": rid, "lvl": "member" if lvl == "variant" else lvl, "stream": lvl, "s": c["ms"] if lvl in ("member", "variant") else c["fs"] if lvl == "vfield" else c["ts"], "v1": a["verdict"], "v2": b["verdict"],
                           "same": a.get("out") == b.get("out"), "merged": merged,
-                          "writable": (True if lvl in ("member", "vfield") else t_writable(c))})
+                          "writable": (True if lvl != "trait" else t_writable(c))})
+    stream_of = {t["id"]: t["stream"] for t in trace}
     ok, mism, st = core.judge("Trace_C14", trace, tag="c14", timeout=3000)
     ctx.add_tlc(st)
     for m in mism:
-        ctx.violation({"level": m["lvl"], "conflict": m["conflict"]}, m["symptom"], {"srcs": srcs[m["id"]], "want": m["want"], "merged": m["merged"]})
+        ctx.violation({"level": stream_of.get(m["id"], m["lvl"]), "conflict": m["conflict"]}, m["symptom"], {"srcs": srcs[m["id"]], "want": m["want"], "merged": m["merged"]})
     ctx.cov["evaluations"] = len(trace)
     ctx.cov["traces_validated_against_impl"] = ok
-    ctx.cov["member_sequences"] = sum(1 for t in trace if t["lvl"] == "member")
+    ctx.cov["member_sequences"] = sum(1 for t in trace if t["stream"] == "member")
+    ctx.cov["variant_sequences"] = sum(1 for t in trace if t["stream"] == "variant")
     ctx.cov["trait_sequences"] = sum(1 for t in trace if t["lvl"] == "trait")
     ctx.cov["variant_field_sequences"] = sum(1 for t in trace if t["lvl"] == "vfield")
     ctx.cov["conflicting_sequences"] = sum(1 for t in trace if t["v1"] == "err")
